@@ -29,6 +29,21 @@ def nat(v):
     return datetime.datetime(*v[1:]) if isinstance(v, tuple) else v
 
 
+def cases_random(tier, seed):
+    rng = random.Random(seed + 12)
+    n = 12 if tier == 'quick' else 3000
+    for i in range(n):
+        yield dict(model=f'random:{seed * 100000 + i}', point=rng.choice(POINTS), ext=rng.choice(['.json', '.gz', '.gzip', '.JSON.GZ']))
+
+
+def model_spec(name):
+    if name.startswith('random:'):
+        from drivers.gen_models import gen_model
+        m = gen_model(int(name.split(':')[1]))
+        return dict(cells=m['cells'], names=m['names'])
+    return MODELS[name]
+
+
 def cases(tier, seed):
     for m in MODELS:
         for point in POINTS:
@@ -50,7 +65,7 @@ def oracle(c):
     import xlcalculator
     from xlcalculator import model as M
     from drivers.common import build_model, observe
-    spec = MODELS[c['model']]
+    spec = model_spec(c['model'])
     cells = {full(k): nat(v) for k, v in spec['cells'].items()}
     try:
         model = build_model(cells, spec['names'] or None, build_code=(c['point'] != 'uncompiled'))
@@ -113,6 +128,9 @@ def oracle(c):
 
 
 DRIVERS = [
+    Driver('C12/B2.random', cases_random, oracle, nchunks=6,
+           rule='seeded random acyclic models (drivers/gen_models.py: 1-3 sheets incl. a quoted one, constants of every type with holes, formulas over cells / ranges / names) x a random point of the history x a random extension: same checks as B2.roundtrip',
+           bound='12 (quick) / 3000 (thorough) models'),
     Driver('C12/B2.roundtrip', cases, oracle, nchunks=6, exhaustive=True,
            rule='3 models (all value types: ints, floats incl. 1e300 / 5e-324 / -0.0, booleans, empty and non-ASCII text, quotes, dates, formulas yielding errors, ranges, defined names; three sheets incl. a quoted one) x 5 points of a build / evaluate / set_cell_value history x 4 file extensions (.json, .gz, .gzip, .JSON.GZ): compression by extension, equality of cells / formulae / names / ranges, equal evaluation of every cell',
            bound='the listed models (complete)'),
